@@ -39,6 +39,7 @@ type Clause struct {
 	Params                  []ClauseParam
 	ModKind                 string // for modifies: elems | obj | field | mapof | global
 	ModField                string
+	Assumed                 bool   // assume-at: an environment precondition stated at a program point
 	Anchor                  string // for assert: source text prefix of the statement before which it holds
 	AnchorPos, AnchorEnd    token.Pos
 	AnchorFile              string
@@ -152,8 +153,8 @@ func parseContractFile(path, pkgPath string) ([]*Contract, error) {
 		case "panics":
 			rest = strings.TrimSpace(strings.TrimPrefix(rest, "when"))
 			cur.PanicsWhen = mk("panics", -1, rest)
-		case "assert":
-			// assert "anchor": expr
+		case "assume", "assert":
+			// assert "anchor": expr   (assume: taken as an environment precondition at that point, never proved)
 			if !strings.HasPrefix(rest, "\"") {
 				return nil, fmt.Errorf("%s:%d: assert needs a quoted anchor", path, i+1)
 			}
@@ -163,6 +164,7 @@ func parseContractFile(path, pkgPath string) ([]*Contract, error) {
 			}
 			c := mk("assert", -1, strings.TrimSpace(rest[j+3:]))
 			c.Anchor = rest[1 : j+1]
+			c.Assumed = word == "assume"
 			cur.Asserts = append(cur.Asserts, c)
 		case "loop":
 			var k int
@@ -851,6 +853,31 @@ func generateClauses(pkg *packages.Package, contracts []*Contract) (string, []er
 	sort.Strings(paths)
 	for _, p := range paths {
 		fmt.Fprintf(&out, "import %s %q\n", g.imports[p], p)
+	}
+	// imports of the contract files themselves (clauses may mention them by their local names)
+	seenImp := map[string]bool{}
+	body := g.buf.String()
+	for _, f := range pkg.Syntax {
+		fn := pkg.Fset.Position(f.Pos()).Filename
+		if !strings.HasSuffix(fn, "_verif.go") {
+			continue
+		}
+		for _, im := range f.Imports {
+			path := strings.Trim(im.Path.Value, "\"")
+			name := ""
+			if im.Name != nil {
+				name = im.Name.Name
+			} else if ip, ok := pkg.Imports[path]; ok {
+				name = ip.Name
+			}
+			if name == "" || name == "_" || name == "." || seenImp[name] {
+				continue
+			}
+			if regexp.MustCompile(`(^|[^A-Za-z0-9_.])` + regexp.QuoteMeta(name) + `\.`).MatchString(body) {
+				seenImp[name] = true
+				fmt.Fprintf(&out, "import %s %q\n", name, path)
+			}
+		}
 	}
 	out.WriteString("\n")
 	out.Write(g.buf.Bytes())
